@@ -130,7 +130,9 @@ type c13Env struct {
 	short  bool
 	errOut []byte
 	goSent int
-	marks  [][2]int // (output length, go commands read so far) at every write
+	sched  *vsched.Sched
+	lineAt map[int]time.Time // virtual time at which each delivered line was delivered
+	marks  [][2]int          // (output length, go commands read so far) at every write
 }
 
 func (e *c13Env) bestmoves() int { return strings.Count(string(e.out), "bestmove") }
@@ -156,6 +158,10 @@ func firstWordOf(s string) string {
 	return f[0]
 }
 
+// c13LineGap is the virtual time that passes before each GUI command (longer than most hard limits of the
+// scripts, so a deadline measured from the wrong moment shows in the duration a timer is armed with).
+const c13LineGap = 700 * time.Millisecond
+
 type c13Reader struct{ e *c13Env }
 
 func (r c13Reader) Read(p []byte) (int, error) {
@@ -169,6 +175,10 @@ func (r c13Reader) Read(p []byte) (int, error) {
 			return nil
 		}
 		s := e.script.Lines[e.next]
+		if e.sched != nil {
+			e.sched.Advance(c13LineGap) // the GUI's clock keeps running between its commands
+			e.lineAt[e.next] = e.sched.VNow()
+		}
 		e.next++
 		if firstWordOf(s) == "go" {
 			e.goSent++
@@ -210,7 +220,7 @@ func (w c13Err) Write(p []byte) (int, error) {
 
 // c13Exec runs one execution of the script under the scheduler.
 func c13Exec(sc c13Script, choices []int, visit func(uint64, int) bool, short, poolAlt, trace bool) (vsched.Outcome, *c13Env, *mockSearch, *vsched.Sched) {
-	env := &c13Env{script: sc, short: short}
+	env := &c13Env{script: sc, short: short, lineAt: map[int]time.Time{}}
 	mock := &mockSearch{specs: sc.Mocks}
 	horizon := 4000
 	if sc.Real {
@@ -220,6 +230,7 @@ func c13Exec(sc c13Script, choices []int, visit func(uint64, int) bool, short, p
 	s.PoolEmptyAlt = poolAlt
 	s.Trace = trace
 	s.Visit = visit
+	env.sched = s
 	s.StateExtra = func() string { return fmt.Sprintf("in%d;go%d;mock%d;out:%s", env.next, env.goSent, mock.n, env.out) }
 	out := s.Run(func() {
 		var srch uci.Search = mock
@@ -325,15 +336,35 @@ func c13Judge(sc c13Script, out vsched.Outcome, env *c13Env, mock *mockSearch, s
 	return ""
 }
 
-// c13TimeUseSites (C14 at its use sites): the soft target handed to the search and the duration the hard
-// timer is armed with must be exactly what the driver's limit computation yields for the clock in the go line.
+// c13TimeUseSites (C14 at its use sites): the soft target handed to the search must be exactly what the
+// driver's limit computation yields for the clock in the go line, and the hard deadline in effect - measured
+// on the virtual clock from the event that starts the mover's clock (the go command, or the ponderhit of a
+// ponder search) - must be that computation's hard limit: a timer armed at time a with duration d belongs to
+// the go command whose window contains a, and must satisfy d <= hard and a+d >= event+hard (the arming
+// latency may lengthen the deadline in effect, nothing may shorten it or make it depend on anything else).
 func c13TimeUseSites(sc c13Script, env *c13Env, mock *mockSearch, s *vsched.Sched) string {
-	g := 0
-	var wantTimers []time.Duration
-	maxTimers := 0
-	for _, ln := range sc.Lines[:env.next] {
+	type goCmd struct {
+		line          string
+		at, hit       time.Time
+		hard          time.Duration
+		timed, ponder bool
+		hitSeen       bool
+		timers        int
+	}
+	var gos []goCmd
+	for i, ln := range sc.Lines[:env.next] {
+		at, delivered := env.lineAt[i]
+		if !delivered {
+			continue
+		}
 		f := strings.Fields(ln)
-		if len(f) == 0 || f[0] != "go" {
+		if len(f) == 0 {
+			continue
+		}
+		if f[0] == "ponderhit" && len(gos) > 0 && !gos[len(gos)-1].hitSeen {
+			gos[len(gos)-1].hit, gos[len(gos)-1].hitSeen = at, true
+		}
+		if f[0] != "go" {
 			continue
 		}
 		var tc [5]int64 // wtime btime winc binc movetime
@@ -349,41 +380,53 @@ func c13TimeUseSites(sc c13Script, env *c13Env, mock *mockSearch, s *vsched.Sche
 			}
 		}
 		soft, hard, timed := uci.VerifLimits(tc[0], tc[1], tc[2], tc[3], tc[4], White)
+		g := len(gos)
 		if g < len(mock.softSeen) {
 			want := int64(0)
 			if timed {
 				want = soft
 			}
 			if mock.softSeen[g] != want {
-				return fmt.Sprintf("search %d (%q) was given soft time %d, the limit computation yields %d", g, ln, mock.softSeen[g], want)
+				return fmt.Sprintf("soft-target: search %d (%q) was given soft time %d, the limit computation yields %d", g, ln, mock.softSeen[g], want)
 			}
 		}
-		if timed {
-			maxTimers++
-			if !ponder {
-				wantTimers = append(wantTimers, time.Duration(hard)*time.Millisecond)
-			} else {
-				wantTimers = append(wantTimers, -time.Duration(hard)*time.Millisecond) // optional: armed only after a ponderhit
-			}
-		}
-		g++
+		gos = append(gos, goCmd{line: ln, at: at, hard: time.Duration(hard) * time.Millisecond, timed: timed, ponder: ponder})
 	}
-	got := s.TimerDurations()
-	gi := 0
-	for _, w := range wantTimers {
-		if w < 0 {
-			if gi < len(got) && got[gi] == -w {
-				gi++
+	for _, tm := range s.TimerArms() {
+		g := -1
+		for i := range gos {
+			if !gos[i].at.After(tm.At) {
+				g = i
 			}
-			continue
 		}
-		if gi >= len(got) || got[gi] != w {
-			return fmt.Sprintf("hard timers armed with %v, the limit computation yields %v", got, wantTimers)
+		if g < 0 {
+			return fmt.Sprintf("hard-deadline: a timer of %v was armed before any go command", tm.D)
 		}
-		gi++
+		c := &gos[g]
+		c.timers++
+		switch {
+		case !c.timed:
+			return fmt.Sprintf("hard-deadline %q is not time-controlled but a timer of %v was armed", c.line, tm.D)
+		case c.timers > 1:
+			return fmt.Sprintf("hard-deadline %q: more than one hard timer armed", c.line)
+		case c.ponder && (!c.hitSeen || tm.At.Before(c.hit)):
+			return fmt.Sprintf("hard-deadline %q: hard timer armed while still pondering (no ponderhit delivered yet)", c.line)
+		}
+		event := c.at
+		if c.ponder {
+			event = c.hit
+		}
+		if tm.D > c.hard {
+			return fmt.Sprintf("hard-deadline %q: hard timer armed with %v, the limit computation yields %v", c.line, tm.D, c.hard)
+		}
+		if fire := tm.At.Add(tm.D); fire.Before(event.Add(c.hard)) {
+			return fmt.Sprintf("hard-deadline %q: the hard deadline in effect lies %v after the event that starts the mover's clock, the limit computation yields %v (timer of %v armed %v after the event)", c.line, fire.Sub(event), c.hard, tm.D, tm.At.Sub(event))
+		}
 	}
-	if gi != len(got) {
-		return fmt.Sprintf("hard timers armed with %v, expected (optional ones negative) %v", got, wantTimers)
+	for _, c := range gos {
+		if c.timed && !c.ponder && c.timers != 1 {
+			return fmt.Sprintf("hard-deadline %q: time-controlled search without a hard timer", c.line)
+		}
 	}
 	return ""
 }
@@ -531,12 +574,12 @@ type c13Result struct {
 	Bound  int    `json:"bound"`
 	Capped bool   `json:"capped"`
 	// Completed is the highest deviation bound whose exploration finished (-1 none); equals Bound unless capped.
-	Completed int      `json:"completed_bound"`
+	Completed int `json:"completed_bound"`
 	// Closed: the exploration with unbounded deviations visited every reachable global state of the script.
-	Closed bool `json:"closed_unbounded"`
-	Outcomes  []string `json:"outcomes"`
-	Failure   string   `json:"failure,omitempty"`
-	Schedule  []int    `json:"schedule,omitempty"`
+	Closed   bool     `json:"closed_unbounded"`
+	Outcomes []string `json:"outcomes"`
+	Failure  string   `json:"failure,omitempty"`
+	Schedule []int    `json:"schedule,omitempty"`
 }
 
 // c13Explore explores one script to the given bound (bound<0 = unbounded with pruning).
